@@ -419,7 +419,7 @@ pub fn check(case: &Case, ctx: &mut CaseCtx) -> CaseResult {
                 blocks.push(BlockSpec::Raw { data: DataSpec { kind: 2, len: window as u32, seed: seed.wrapping_add(i as u32), a: 3, b: 9 }.render() });
             }
             blocks.push(BlockSpec::Comp(first));
-            let spec = FrameSpec { single_segment: false, window_desc, fcs_bytes: 0, checksum: seed % 2 == 0, dict_id_bytes: 0, blocks };
+            let spec = FrameSpec { single_segment: false, window_desc, fcs_bytes: 0, checksum: seed % 2 == 0, dict_id_bytes: 0, zero_dict_id: false, blocks };
             let out = synth(&spec, None, false);
             if !out.invalid || out.window_size != window as u64 {
                 ctx.feat("skipped:past_window_not_constructible");
